@@ -81,7 +81,7 @@ def safe_parse_labelled(schema):
     from vlib import docs
     from statham.schema.parser import parse
 
-    if not isinstance(schema, dict) or _has_unaddressable(schema):
+    if not isinstance(schema, (dict, bool)) or _has_unaddressable(schema):
         return ("skip", "not-loadable-through-json_ref_dict")
     try:
         loaded = docs.materialized({"a.json": copy.deepcopy(schema)}, "a.json")
